@@ -482,6 +482,14 @@ func ruleInc3(c *Ctx) []*Ob {
 					}
 				})
 			}
+			if w.fn == "(*segmentStack).isEmpty" {
+				o.trivial(w.fn, "the loop over "+mname+" is reached", c.pos(f.Pos()), "table exception: an existential query - own segments already answer 'not empty' before the children are looked at")
+			} else if bad := loopNotReached(c, f, mname); bad != "" {
+				o.add(w.fn, "the loop over "+mname+" is reached", c.pos(f.Pos()), false, bad)
+			} else {
+				o.add(w.fn, "the loop over "+mname+" is reached", c.pos(f.Pos()), true,
+					"every path to a successful return passes the loop, except where the subject is nil / the deleted marker or the map is empty")
+			}
 			if rec {
 				o.add(w.fn, construct, c.instrPos(pos), true, "recursive call inside the loop over "+mname)
 				// every way around the loop either recurses or passes an allowed skip edge
@@ -533,6 +541,128 @@ func ruleInc3(c *Ctx) []*Ob {
 		})
 	}
 	return o.list
+}
+
+// loopNotReached: can the walker return successfully without ever starting its loop over the child map mname,
+// other than because the subject whose children it walks is nil / the deleted marker, or the map is empty?
+func loopNotReached(c *Ctx, f *ssa.Function, mname string) string {
+	var subjects []ssa.Value
+	isRange := func(i ssa.Instruction) bool {
+		rg, ok := i.(*ssa.Range)
+		if !ok {
+			return false
+		}
+		fv, _ := loadedField(rg.X)
+		return fv != nil && fv.Name() == mname
+	}
+	eachInstr(f, func(i ssa.Instruction) {
+		if isRange(i) {
+			_, base := loadedField(i.(*ssa.Range).X)
+			if base != nil {
+				subjects = append(subjects, origins(base)...)
+			}
+		}
+	})
+	if len(subjects) == 0 {
+		return ""
+	}
+	isSubject := func(v ssa.Value) bool {
+		for _, og := range origins(v) {
+			for _, s := range subjects {
+				if og == s {
+					return true
+				}
+			}
+		}
+		return false
+	}
+	errIdx := -1
+	if res := f.Signature.Results(); res.Len() > 0 && isErrorType(res.At(res.Len()-1).Type()) {
+		errIdx = res.Len() - 1
+	}
+	bad := ""
+	walk(entryPoint(f), walkOpts{
+		noInline: true,
+		visit: func(i ssa.Instruction, t *tracker) bool {
+			if bad != "" || isRange(i) {
+				return true
+			}
+			if r, ok := i.(*ssa.Return); ok {
+				if errIdx >= 0 && len(r.Results) > errIdx && !isNilConst(r.Results[errIdx]) {
+					return true // an error return
+				}
+				bad = "the walker can return at " + c.instrPos(i) + " without having started its loop over " + mname +
+					" although its subject is there: an early exit that depends on the subject's own content (or on other state) skips the whole subtree of child collections"
+				return true
+			}
+			return false
+		},
+		edge: func(from, to *ssa.BasicBlock, label string, cond ssa.Value, onTrue bool, _ *tracker) bool {
+			if bad != "" {
+				return true
+			}
+			b, ok := cond.(*ssa.BinOp)
+			if !ok {
+				return false
+			}
+			switch b.Op {
+			case token.EQL, token.NEQ:
+				x, y := b.X, b.Y
+				if isNilConst(x) || isAnyGlobalLoad(x) {
+					x, y = y, x
+				}
+				eq := (b.Op == token.EQL) == onTrue
+				if (isNilConst(y) || isAnyGlobalLoad(y)) && isSubject(x) && eq {
+					return true // no subject: nothing to walk
+				}
+				// the child map itself is nil
+				if fv, base := loadedField(x); fv != nil && fv.Name() == mname && isNilConst(y) && base != nil && isSubject(base) && eq {
+					return true
+				}
+				// len(map) == 0
+				if base := lenOfField(x, mname); base != nil && isSubject(base) && isZeroConst(y) && eq {
+					return true
+				}
+			case token.GTR, token.LEQ:
+				// len(map) > 0 false edge / len(map) <= 0 true edge
+				if base := lenOfField(b.X, mname); base != nil && isSubject(base) && isZeroConst(b.Y) && (b.Op == token.LEQ) == onTrue {
+					return true
+				}
+			}
+			return false
+		},
+	})
+	return bad
+}
+
+func isAnyGlobalLoad(v ssa.Value) bool {
+	u, ok := v.(*ssa.UnOp)
+	if !ok || u.Op != token.MUL {
+		return false
+	}
+	_, isG := u.X.(*ssa.Global)
+	return isG
+}
+
+func isZeroConst(v ssa.Value) bool {
+	k, ok := v.(*ssa.Const)
+	return ok && k.Value != nil && k.Value.String() == "0"
+}
+
+// lenOfField: v is len(<base>.<fname>); returns base (nil otherwise).
+func lenOfField(v ssa.Value, fname string) ssa.Value {
+	call, ok := v.(*ssa.Call)
+	if !ok || len(call.Call.Args) != 1 {
+		return nil
+	}
+	if b, isB := call.Call.Value.(*ssa.Builtin); !isB || b.Name() != "len" {
+		return nil
+	}
+	fv, base := loadedField(call.Call.Args[0])
+	if fv == nil || fv.Name() != fname {
+		return nil
+	}
+	return base
 }
 
 // loopSkipsRecursion: in the range loop over a child map, can an iteration
@@ -722,4 +852,277 @@ func ruleInc4(c *Ctx) []*Ob {
 		}
 	}
 	return o.list
+}
+
+// ---------------------------------------------------------------- INC-6
+
+func init() {
+	register(&Rule{
+		ID: "INC-6",
+		Doc: "Pairing by name needs the incarnation: a function that, for one child name, takes the child's counterpart from two different trees (a lookup in / range over childCollections, " +
+			"childSegStacks or ChildFooters, or the result of ChildCollectionSnapshot(name)) compares the incarnation numbers of the two counterparts (directly or through a helper that reads " +
+			"incarNum) somewhere in the function. The pairings are discovered from the code, not listed: the functions that do compare (appendChildStacks, merge, buildNewFooter, " +
+			"mergeSegStacks, spliceFooter, buildStackDirtyTop) are the evidence that an unguarded one is deviant (a deleted and recreated child would be paired with its predecessor's data).",
+		Props: []string{"C11", "C01", "C07"},
+		Floor: 4,
+		Run:   ruleInc6,
+		Exceptions: []string{
+			"(*Store).persistSegments: the footer handed in was built by buildNewFooter from the same stack in the same round (same incarnations by construction)",
+			"(*collection).buildStackDirtyTop, loop over the batch's child batches: curStackTop is the collection's own stackDirtyTop built under the same lock as childCollections; a deleted child's stack was dropped from it by the deleting ExecuteBatch",
+		},
+	})
+}
+
+type childElem struct {
+	v      ssa.Value
+	key    ssa.Value
+	source string // map field (or "ChildCollectionSnapshot") @ base
+	instr  ssa.Instruction
+}
+
+func childElems(c *Ctx, f *ssa.Function) []childElem {
+	var out []childElem
+	eachInstr(f, func(i ssa.Instruction) {
+		v, ok := i.(ssa.Value)
+		if !ok {
+			return
+		}
+		if mf, key, isEl := childKeyOf(v); isEl {
+			base := ""
+			fresh := false
+			setBase := func(m ssa.Value) {
+				_, b := loadedField(m)
+				if b != nil {
+					base = canonKey(b)
+					for _, og := range origins(b) {
+						if isFreshAlloc(og) {
+							fresh = true
+						}
+					}
+				}
+			}
+			switch x := v.(type) {
+			case *ssa.Lookup:
+				setBase(x.X)
+			case *ssa.Extract:
+				switch t := x.Tuple.(type) {
+				case *ssa.Lookup:
+					setBase(t.X)
+				case *ssa.Next:
+					if rg, isR := t.Iter.(*ssa.Range); isR {
+						setBase(rg.X)
+					}
+				}
+			}
+			if mf.Name() == "childBatches" {
+				return // batches carry no incarnation
+			}
+			if fresh {
+				return // the stack / footer under construction in this very function
+			}
+			out = append(out, childElem{v, key, mf.Name() + "@" + base, i})
+			return
+		}
+		// x, _ := s.ChildCollectionSnapshot(name)
+		if e, isE := v.(*ssa.Extract); isE && e.Index == 0 {
+			if call, isC := e.Tuple.(*ssa.Call); isC {
+				cc := call.Common()
+				name := ""
+				var key ssa.Value
+				var recv ssa.Value
+				if cc.IsInvoke() {
+					name = cc.Method.Name()
+					if len(cc.Args) > 0 {
+						key, recv = cc.Args[0], cc.Value
+					}
+				} else if sf := cc.StaticCallee(); sf != nil && sf.Signature.Recv() != nil && len(cc.Args) > 1 {
+					name, recv, key = sf.Name(), cc.Args[0], cc.Args[1]
+				}
+				if name == "ChildCollectionSnapshot" && key != nil {
+					out = append(out, childElem{v, key, "ChildCollectionSnapshot@" + canonKey(recv), i})
+				}
+			}
+		}
+	})
+	return out
+}
+
+// reachesElem: v is computed from element e (through loads, field addresses, conversions, phis and calls that take it).
+func reachesElem(v ssa.Value, e ssa.Value) bool {
+	seen := map[ssa.Value]bool{}
+	var rec func(v ssa.Value, d int) bool
+	rec = func(v ssa.Value, d int) bool {
+		if v == nil || seen[v] || d > 12 {
+			return false
+		}
+		seen[v] = true
+		if v == e {
+			return true
+		}
+		switch x := v.(type) {
+		case *ssa.UnOp:
+			return rec(x.X, d+1)
+		case *ssa.FieldAddr:
+			return rec(x.X, d+1)
+		case *ssa.Field:
+			return rec(x.X, d+1)
+		case *ssa.Extract:
+			return rec(x.Tuple, d+1)
+		case *ssa.Phi:
+			for _, ed := range x.Edges {
+				if rec(ed, d+1) {
+					return true
+				}
+			}
+		case *ssa.MakeInterface:
+			return rec(x.X, d+1)
+		case *ssa.ChangeInterface:
+			return rec(x.X, d+1)
+		case *ssa.TypeAssert:
+			return rec(x.X, d+1)
+		case *ssa.ChangeType:
+			return rec(x.X, d+1)
+		case *ssa.Call:
+			for _, a := range x.Call.Args {
+				if rec(a, d+1) {
+					return true
+				}
+			}
+			if x.Call.IsInvoke() {
+				return rec(x.Call.Value, d+1)
+			}
+		case *ssa.Alloc:
+			// a local cell: what was stored into it
+			if refs := x.Referrers(); refs != nil {
+				for _, r := range *refs {
+					if st, ok := r.(*ssa.Store); ok && st.Addr == x && rec(st.Val, d+1) {
+						return true
+					}
+				}
+			}
+		}
+		return false
+	}
+	return rec(v, 0)
+}
+
+func ruleInc6(c *Ctx) []*Ob {
+	o := newObs(c, "INC-6")
+	except := map[string]string{
+		"(*Store).persistSegments|*": "the footer handed in was built by buildNewFooter from the same stack in the same round",
+		"(*collection).buildStackDirtyTop|childBatches": "curStackTop is the collection's own stackDirtyTop, built under the same lock as childCollections: the ExecuteBatch that deleted a child also dropped " +
+			"the child's stack from the new top (second loop, `!exists`), so a name found in both belongs to the same incarnation",
+	}
+	keyDesc := func(k ssa.Value) string {
+		if e, ok := k.(*ssa.Extract); ok {
+			if n, isN := e.Tuple.(*ssa.Next); isN {
+				if rg, isR := n.Iter.(*ssa.Range); isR {
+					if fv, _ := loadedField(rg.X); fv != nil {
+						return fv.Name()
+					}
+				}
+			}
+		}
+		if p, ok := k.(*ssa.Parameter); ok {
+			return "parameter " + p.Name()
+		}
+		return "name"
+	}
+	for _, f := range c.Funcs {
+		if c.isHarness(f) {
+			continue
+		}
+		fn := c.fname(f)
+		els := childElems(c, f)
+		if len(els) < 2 {
+			continue
+		}
+		done := map[string]bool{}
+		for a := 0; a < len(els); a++ {
+			for b := a + 1; b < len(els); b++ {
+				ea, eb := els[a], els[b]
+				if ea.source == eb.source || !sameKey(ea.key, eb.key) {
+					continue
+				}
+				sa, sb := ea.source, eb.source
+				if sb < sa {
+					sa, sb = sb, sa
+				}
+				kd := keyDesc(ea.key)
+				construct := "pairing " + strings.Split(sa, "@")[0] + " x " + strings.Split(sb, "@")[0] + " by key of " + kd
+				if done[sa+"|"+sb+"|"+kd] {
+					continue
+				}
+				done[sa+"|"+sb+"|"+kd] = true
+				why, isEx := except[fn+"|"+kd]
+				if !isEx {
+					why, isEx = except[fn+"|*"]
+				}
+				if isEx {
+					o.trivial(fn, construct, c.instrPos(ea.instr), "table exception: "+why)
+					continue
+				}
+				compared := ""
+				eachInstr(f, func(i ssa.Instruction) {
+					bo, ok := i.(*ssa.BinOp)
+					if !ok || (bo.Op != token.EQL && bo.Op != token.NEQ) || compared != "" {
+						return
+					}
+					// the comparison is about incarnations: an operand loads incarNum, or comes from a helper that does
+					if !mentionsIncarNum(c, bo.X) && !mentionsIncarNum(c, bo.Y) {
+						return
+					}
+					for _, x := range els {
+						if x.source != ea.source || !sameKey(x.key, ea.key) {
+							continue
+						}
+						for _, y := range els {
+							if y.source != eb.source || !sameKey(y.key, eb.key) {
+								continue
+							}
+							if (reachesElem(bo.X, x.v) && reachesElem(bo.Y, y.v)) || (reachesElem(bo.X, y.v) && reachesElem(bo.Y, x.v)) {
+								compared = c.instrPos(i)
+							}
+						}
+					}
+				})
+				why = "the two counterparts' incarnation numbers are compared at " + compared
+				if compared == "" {
+					why = "the child's counterparts from two trees are paired by name alone: after the child was deleted and recreated, the new child is combined with its predecessor's data (deleted keys resurface, merges resolve against old values)"
+				}
+				o.add(fn, construct, c.instrPos(ea.instr), compared != "", why)
+			}
+		}
+	}
+	return o.list
+}
+
+// mentionsIncarNum: v is a load of an incarNum field, or the result of a moss helper that loads one.
+func mentionsIncarNum(c *Ctx, v ssa.Value) bool {
+	if fv, _ := loadedField(v); isIncarNum(fv) {
+		return true
+	}
+	var call *ssa.Call
+	switch x := v.(type) {
+	case *ssa.Call:
+		call = x
+	case *ssa.Extract:
+		call, _ = x.Tuple.(*ssa.Call)
+	}
+	if call == nil {
+		return false
+	}
+	sf := call.Call.StaticCallee()
+	if sf == nil || sf.Pkg != c.Moss {
+		return false
+	}
+	found := false
+	eachInstr(sf, func(i ssa.Instruction) {
+		if val, ok := i.(ssa.Value); ok {
+			if fv, _ := loadedField(val); isIncarNum(fv) {
+				found = true
+			}
+		}
+	})
+	return found
 }
